@@ -64,7 +64,13 @@ Lits == <<
   L("int16[1:3]", "[-1,2]", "m", "int", 16, FALSE, <<2>>, <<QN(1,1,0), Q(2,1,0)>>),
   L("int[2,2]", "\"\"\"\n[[0,1],\n [2,3]]\n\"\"\"", "km/s", "int", 32, FALSE, <<2, 2>>, <<Q(0,1,0), Q(1,1,0), Q(2,1,0), Q(3,1,0)>>),
   L("str", "\"\"\"\nLorem ipsum\ndolor sit\n\"\"\"", "", "str", 0, FALSE, <<>>, <<S("Lorem ipsum\ndolor sit")>>),
-  L("str", "''", "", "str", 0, FALSE, <<>>, <<S("")>>)
+  L("str", "''", "", "str", 0, FALSE, <<>>, <<S("")>>),
+  \* the precision suffix is information about the target type, the value stays the decimal number written
+  L("float32", "0.3", "", "float", 32, FALSE, <<>>, <<Q(3, 10, 0)>>),
+  L("float32", "1e-3", "", "float", 32, FALSE, <<>>, <<Q(1, 1000, 0)>>),
+  L("float32[2]", "[0.1,2.5]", "", "float", 32, FALSE, <<2>>, <<Q(1, 10, 0), Q(5, 2, 0)>>),
+  \* inside a block everything is text, also a line that starts with a hash sign
+  L("str", "\"\"\"\nfirst line\n# not a comment\nlast line\n\"\"\"", "", "str", 0, FALSE, <<>>, <<S("first line\n# not a comment\nlast line")>>)
 >>
 
 \* a table literal: header declarations and rows; it denotes one array node per column below the table's name
